@@ -728,7 +728,7 @@ fn build_hash_body(
         }
     };
     Ok(quote! {
-        fn hash<H: ::core::hash::Hasher>(&self, state: &mut H) {
+        fn hash<__H: ::core::hash::Hasher>(&self, state: &mut __H) {
             #body
         }
     })
@@ -750,10 +750,10 @@ fn build_hash_expr(
     if let Some(by) = &cmp.hash.by {
         return Ok(quote! {
             {
-                fn #fn_ident<H: ::core::hash::Hasher>(
+                fn #fn_ident<__H: ::core::hash::Hasher>(
                     this: &#ty,
-                    state: &mut H,
-                    hash: impl ::core::ops::Fn(&#ty, &mut H)) {
+                    state: &mut __H,
+                    hash: impl ::core::ops::Fn(&#ty, &mut __H)) {
                     hash(this, state)
                 }
                 #fn_ident(&#this, state, #by)
